@@ -221,12 +221,13 @@ def n_diveq_regex_after_backtrack_token(ref, src):
 
 
 def n_asi_before_prefix_incdec(ref, src):
-    """semicolon inserted (by a line break) before a prefix ++/--"""
+    """semicolon inserted (by a line break) before a prefix ++/-- that follows the `}` of an object
+    literal or function expression (the other operand ends were fixed in 2093a2f)"""
     n = 0
     for s in ref.semis:
         if s['kind'] == 'inserted' and s.get('by') == 'newline' and s.get('before') in ('++', '--'):
             idx = _tok_index_at(ref, s['pos'])
-            if idx is not None:
+            if idx is not None and idx > 0 and ref.tokens[idx - 1].text == '}':
                 src.gaps[idx] = ';' + src.gaps[idx]
                 n += 1
     return n
@@ -325,8 +326,9 @@ def over_acceptance_signature(text, failure, info):
     if msg.startswith('identifier or digit directly after numeric literal'):
         return 'c03.number_followed_by_identifier'
     # postfix ++/-- separated from its operand by a line terminator (restricted production ignored)
-    incdec = dict((k.start, k) for k in info.get('ref_partial_tokens', ())
-                  if k.type == 'punct' and k.text in ('++', '--') and k.nl_before)
+    _part = info.get('ref_partial_tokens', ())
+    incdec = dict((k.start, k) for i, k in enumerate(_part)
+                  if k.type == 'punct' and k.text in ('++', '--') and k.nl_before and i and _part[i - 1].text == '}')
     if incdec:
         for n in nodes:
             if type(n).__name__ == 'PostfixExpr' and n.lexpos in incdec:
